@@ -292,7 +292,7 @@ func submittedFor(rng *gen.RNG, key []byte, centre uint64, skew uint64, digits, 
 func c03Cases(c *Ctx, emit func(vhotpCase)) {
 	rng := c.RNG.Fork(3)
 	digitSet := []int{1, 4, 6, 8, 9, 10}
-	nSecrets := c.N(3, 12)
+	nSecrets := c.N(12, 100)
 	counters := append([]uint64{}, gen.Counters...)
 	counters = append(counters, 4, 5, 12, 1<<63-2, 1<<63+2, 1<<63+9, 1<<64-22)
 	for s := 0; s < nSecrets; s++ {
@@ -326,7 +326,7 @@ func c03Cases(c *Ctx, emit func(vhotpCase)) {
 		}
 	}
 	// random
-	for i := 0; i < c.N(3000, 100000); i++ {
+	for i := 0; i < c.N(100000, 3000000); i++ {
 		key := rng.Bytes(rng.Intn(70))
 		ctr := gen.Counter(rng)
 		skew := uint64(rng.Intn(11))
@@ -353,7 +353,7 @@ func c03Cases(c *Ctx, emit func(vhotpCase)) {
 func c04Cases(c *Ctx, emit func(vtotpCase)) {
 	rng := c.RNG.Fork(4)
 	digitSet := []int{1, 4, 6, 8, 9, 10}
-	for s := 0; s < c.N(40, 600); s++ {
+	for s := 0; s < c.N(600, 12000); s++ {
 		key := gen.SecretBytes(rng, gen.Pick(rng, gen.SecretLens), 2)
 		enc := ref.Base32Encode(key)
 		period := gen.Period(rng)
@@ -399,7 +399,7 @@ func c04Cases(c *Ctx, emit func(vtotpCase)) {
 		}
 	}
 	// unsupported parameter classes
-	for i := 0; i < c.N(300, 3000); i++ {
+	for i := 0; i < c.N(3000, 30000); i++ {
 		key := rng.Bytes(20)
 		unix := gen.UnixSeconds(rng, 30)
 		d, a := rng.Intn(256), rng.Intn(3)
@@ -445,9 +445,10 @@ func refusedSkewCases(c *Ctx, skews []uint64) []vtotpCase {
 }
 
 func runC04(c *Ctx) {
-	var cases []vtotpCase
-	c04Cases(c, func(k vtotpCase) { cases = append(cases, k) })
-	parallelJudge(c, cases, judgeVTOTP)
+	bt := newBatcher(c, judgeVTOTP, 97)
+	c04Cases(c, bt.add)
+	bt.flush()
+	cases := bt.keep
 
 	// bounded work. (i) functional, affordable skews: a validator that does not refuse answers (true, nil).
 	small := refusedSkewCases(c, []uint64{11, 12, 100, 10000})
@@ -471,10 +472,7 @@ func runC04(c *Ctx) {
 			}
 		}
 		// in-domain calls: at most 2*skew+1 derivations
-		for i, k := range cases {
-			if i%97 != 0 {
-				continue
-			}
+		for _, k := range cases {
 			hooks.ResetCalls()
 			judgeVTOTP(c, k)
 			n := hooks.Calls()
@@ -513,9 +511,9 @@ func init() {
 		Rule: "for each (secret, digits, hash, counter incl. c<s and 2^31/2^32/2^63 edges, window 0..10): the genuine codes of every counter at distance -(s+3)..+(s+3) plus hostile strings (edits, truncations, padding, Unicode digits, random bytes) are submitted to ValidateHOTP and the verdict compared with membership in the reference window set; windows > 10 must be refused; " +
 			"distinct_nontrivial counts distinct (key,counter,window,digits,hash,submitted) tuples where the submitted string is a genuine window code or has the right length, plus distinct refused-window probes",
 		Run: func(c *Ctx) {
-			var cases []vhotpCase
-			c03Cases(c, func(k vhotpCase) { cases = append(cases, k) })
-			parallelJudge(c, cases, judgeVHOTP)
+			b := newBatcher(c, judgeVHOTP, 0)
+			c03Cases(c, b.add)
+			b.flush()
 		},
 		Replay: func(c *Ctx, kind string, raw json.RawMessage) error {
 			return replayAs(raw, func(k vhotpCase) { judgeVHOTP(c, k) })
